@@ -163,6 +163,138 @@ def gen_chain(rng, cid, mode='step'):
 
 
 # ------------------------------------------------------------------------------------------------
+# conditions and direct waiters on the same shared events, everything decided inside ONE instant (C02, C05):
+# * a condition over shared events a, b(, c) that one member decides (any_of: the first one triggered; all_of: the first one
+#   that fails) while another member is succeeded / FAILED later in the same instant - in the same burst, by a second process
+#   woken at that instant, or by a child process that raises then - i.e. after the condition was triggered and before it is
+#   processed; the late member has, or has not, a waiter of its own (a failure nobody handles must make the run raise);
+# * processes that wait for a member directly, registered before or after the condition was built over it; on resumption they
+#   trigger another event (slot 5) that a further process awaits: what the waiters of one event cause happens in registration order
+
+def gen_decided(rng, cid, mode='step'):
+    c = Case(cid, mode)
+    n = rng.choice([2, 2, 2, 3])
+    kind = rng.choice(['anyof', 'allof'])
+    t = rng.choice([0, 0.5, 1, 1, 2])
+    names = 400
+    builder = [('event', i) for i in range(n)] + [('event', 5)]
+    c.progs.append(builder)
+    procs = {}                       # member slot -> program index of the child process that IS that member
+    for i in range(n):
+        if rng.random() < 0.2:
+            names += 1
+            c.progs.append([('timeout', 10 + i, t, None), ('yield', 10 + i, 0),
+                            rng.choice([('raise', rng.choice(EXCS), rng.randint(0, 9)), ('raise', rng.choice(EXCS), rng.randint(0, 9)), ('ret', val(rng))])])
+            procs[i] = len(c.progs) - 1
+            builder[i] = ('spawn', i, procs[i], names)
+    if rng.random() < 0.5:
+        builder += [('timeout', 30, rng.choice([0, 0.5]), None), ('yield', 30, 0)]      # direct waiters may register first
+    ops = list(range(n))
+    rng.shuffle(ops)
+    if n == 3 and rng.random() < 0.3:
+        builder.append((rng.choice(['anyof', 'allof']), 22, ops[0], ops[1]))
+        builder.append((kind, 24, 22, ops[2]) if rng.random() < 0.5 else (kind, 24, ops[2], 22))
+        top = 24
+    else:
+        top = rng.choice([20, 21, 21])       # even slot and two operands: written with & / |
+        builder.append((kind, top) + tuple(ops))
+    builder += [('yield', top, rng.choice([0, 0, 0, 2, 3, 12])), ('log', 70)]
+    mains = [(0, 1)]
+    # the triggers: one burst, or spread over processes woken at the same / a later instant
+    free = [i for i in range(n) if i not in procs]
+    rng.shuffle(free)
+    acts = []
+    for i in free:
+        acts.append(('fail', i, rng.choice(EXCS), rng.randint(0, 9)) if rng.random() < 0.55 else ('succeed', i, val(rng)))
+    split = rng.random()
+    groups = [acts] if split < 0.6 else [acts[:1], acts[1:]]
+    for gi, g in enumerate(groups):
+        if not g:
+            continue
+        tg = t if (gi == 0 or split < 0.85) else t + rng.choice([0.5, 1])
+        c.progs.append([('timeout', 14 + gi, tg, None), ('yield', 14 + gi, 0)] + g)
+        mains.append((len(c.progs) - 1, 2 + gi))
+    # direct waiters of the members
+    for i in range(n):
+        if rng.random() < 0.35:
+            prog = []
+            d = rng.choice([0, 0, 0.5, t])
+            if d or rng.random() < 0.3:
+                prog += [('timeout', 16 + i, d, None), ('yield', 16 + i, 0)]
+            prog += [('yield', i, rng.choice([0, 0, 0, 3]))]
+            if rng.random() < 0.6:
+                prog.append(('succeed', 5, 40 + i))
+            prog.append(('log', 60 + i))
+            c.progs.append(prog)
+            mains.append((len(c.progs) - 1, 5 + i))
+    if rng.random() < 0.7:
+        c.progs.append([('yield', 5, 0), ('log', 75)])
+        mains.append((len(c.progs) - 1, 9))
+    if rng.random() < 0.3:
+        c.progs.append([('timeout', 19, t + 2, None), ('yield', 19, 0), ('log', 76)])      # later activity: a lost failure lets it happen
+        mains.append((len(c.progs) - 1, 10))
+    first = mains[0]
+    rest = mains[1:]
+    if rng.random() < 0.6:
+        rng.shuffle(rest)
+    # the builder creates the shared events: it comes first, unless every program that names them sleeps before it does
+    c.mains = [first] + rest
+    return c
+
+
+# ------------------------------------------------------------------------------------------------
+# trigger order inside the ordinary class (C01): at an instant t at which other occurrences are pending - parked waiters of a
+# `gate` event triggered just before, timeouts due at t, process starts, zero-delay timeouts - a process triggers a fresh event on
+# which nobody waits yet (`ack`) and yields it right away, builds a condition over it, starts a child that yields it, or a
+# process woken later in that instant yields it: the ack takes effect only after everything triggered before it
+
+def gen_ack(rng, cid, mode='step'):
+    c = Case(cid, mode)
+    t = rng.choice([0, 0.5, 1, 1, 2])
+    names = 500
+    driver = [('event', 0)]
+    c.progs.append(driver)
+    rest = []
+    for j in range(rng.randint(0, 2)):                       # parked on the gate
+        c.progs.append([('yield', 0, 0), ('log', 60 + j)] + ([('timeout', 12 + j, 0, None), ('yield', 12 + j, 0), ('log', 62 + j)] if rng.random() < 0.3 else []))
+        rest.append((len(c.progs) - 1, 2 + j))
+    for j in range(rng.randint(0, 3)):                       # sleepers due at t
+        c.progs.append([('timeout', 14 + j, t, val(rng)), ('yield', 14 + j, 0), ('log', 65 + j)])
+        rest.append((len(c.progs) - 1, 5 + j))
+    driver += [('timeout', 20, t, None), ('yield', 20, 0)]
+    if rng.random() < 0.75:
+        driver.append(('succeed', 0, val(rng)))
+    if rng.random() < 0.3:
+        driver += [('timeout', 21, 0, 3), ('probe', 21, 7)]
+    if rng.random() < 0.3:
+        names += 1
+        c.progs.append([('log', 77)])
+        driver.append(('spawn', 6, len(c.progs) - 1, names))
+    for k in range(rng.choice([1, 1, 2])):
+        a = 1 + 2 * k                                        # ack slots 1, 3
+        driver.append(('event', a))
+        bad = rng.random() < 0.2
+        driver.append(('fail', a, rng.choice(EXCS), rng.randint(0, 9)) if bad else ('succeed', a, val(rng)))
+        how = rng.random()
+        if how < 0.5:
+            driver += [('yield', a, 0), ('log', 70 + k)]
+        elif how < 0.7:
+            driver += [(rng.choice(['allof', 'anyof']), 31 + 2 * k, a), ('yield', 31 + 2 * k, 0), ('log', 72 + k)]
+        elif how < 0.85:
+            names += 1
+            c.progs.append([('yield', a, 0), ('log', 74 + k)])
+            driver.append(('spawn', 8 + k, len(c.progs) - 1, names))
+        else:
+            c.progs.append([('timeout', 22 + k, t, None), ('yield', 22 + k, 0), ('yield', a, 0), ('log', 76 + k)])
+            rest.append((len(c.progs) - 1, 9 + k))
+    driver.append(('log', 79))
+    if rng.random() < 0.6:
+        rng.shuffle(rest)
+    c.mains = [(0, 1)] + rest
+    return c
+
+
+# ------------------------------------------------------------------------------------------------
 # resources (C06): processes follow request / hold / release patterns; each process uses one resource
 
 def gen_resource(rng, cid, mode='step'):
